@@ -198,14 +198,19 @@ def decompressProof (c : CommonData) (circuitDigest : Digest) (cpp : CompressedP
   let proof ← decompressWith c ch cpp.proof
   pure ⟨proof, cpp.publicInputs⟩
 
-/-- `CompressedProofWithPublicInputs::verify` (`plonk/proof.rs` l. 205–231): only the number of
-public inputs is checked before the proof is decompressed (no `validate_proof_with_pis_shape`) -/
+/-- `CompressedProofWithPublicInputs::verify` (`plonk/proof.rs`): the number of public inputs is
+checked, the proof is decompressed, and — since the repair of F-C16-1 — the shape of the DECOMPRESSED
+proof is validated before `verify_with_challenges` (before the repair nothing validated it, and the
+number of quotient identities checked was taken from the proof: forged proofs were accepted) -/
 def verifyCompressed (c : CommonData) (vd : VerifierOnly) (cpp : CompressedProofWithPis) : Verdict :=
   if cpp.publicInputs.length ≠ c.numPublicInputs then .reject "shape-pis" else
   let pih := publicInputsHash cpp.publicInputs
   let ch := getChallenges c pih vd.circuitDigest (challengeView cpp.proof)
   match decompressWith c ch cpp.proof with
   | none => .panic "decompress"
-  | some proof => verifyWithChallenges c vd proof pih ch
+  | some proof =>
+    match Plonk.validateShape c ⟨proof, cpp.publicInputs⟩ with
+    | .accept => verifyWithChallenges c vd proof pih ch
+    | v => v
 
 end P2.Decompress
